@@ -32,13 +32,19 @@ def gen_lineage(r):
     def nm(i):
         return (U.PREFIX + 'pk.l%d' % i) if dotted else (U.PREFIX + 'l%d' % i)
     ig0 = r.choice(['none', 'none', 'anon', 'named', 'named'])
-    s0, g0 = spec.gen_root(r, True, hook_p=0.0, ignore=ig0, class_start=False, max_rep_lo=1)
+    matrix = r.random() < 0.25
+    if matrix:
+        # one rule referred to from every kind of expression; the derived grammars override it
+        s0, g0 = spec.kind_matrix_root(r, ignore=None if ig0 == 'none' else ig0)
+    else:
+        s0, g0 = spec.gen_root(r, True, hook_p=0.0, ignore=ig0, class_start=False, max_rep_lo=1)
     infos = [C.ModInfo(0, nm(0), None, s0, g0)]
     n_levels = r.choice([2, 2, 3, 3, 3])
     prev = infos[0]
     for i in range(1, n_levels):
         ig = r.choice([None, None, None, 'anon', 'named'])
-        s, g = spec.gen_child(r, prev.gen, hook_p=0.0, ignore=ig)
+        force = ('X',) if (matrix and (i == 1 or r.random() < 0.5)) else ()
+        s, g = spec.gen_child(r, prev.gen, hook_p=0.0, ignore=ig, force=force)
         m = C.ModInfo(i, nm(i), prev.id, s, g, parent=prev)
         infos.append(m)
         prev = m
